@@ -1,4 +1,7 @@
-use samlang_ast::mir::{Expression, GenenalLoopVariable, Statement, VariableName};
+use samlang_ast::{
+  hir::BinaryOperator,
+  mir::{Expression, GenenalLoopVariable, Statement, VariableName},
+};
 use samlang_heap::PStr;
 use std::collections::HashSet;
 
@@ -40,7 +43,10 @@ pub(super) fn optimize(
         }
       }
       Statement::Binary(b) => {
-        if expression_is_loop_invariant(&b.e1, &non_loop_invariant_variables)
+        // A division can trap: hoisted in front of the loop it would trap on runs that leave the
+        // loop before reaching it (or before the effects that precede it in the body).
+        if !matches!(b.operator, BinaryOperator::DIV | BinaryOperator::MOD)
+          && expression_is_loop_invariant(&b.e1, &non_loop_invariant_variables)
           && expression_is_loop_invariant(&b.e2, &non_loop_invariant_variables)
         {
           hoisted_stmts.push(stmt);
